@@ -45,10 +45,15 @@ def run(ctx):
         out = []
         for n in own_nodes(f.node):
             if isinstance(n, ast.Return) and isinstance(n.value, ast.Call) and norm(n.value.func) == "self._time_interpolator":
+                # path condition of the return (enclosing branches and earlier `if c: return` guards), so that
+                # `if c: return A else: return B` and `if c: return A` / `return B` read the same
+                conds = sorted(X._path_conditions(n, f.node))
                 guard = None
-                p = getattr(n, "_parent", None)
-                if isinstance(p, ast.If):
-                    guard = (norm(p.test), any(n is s for s in p.body))
+                if len(conds) == 1:
+                    c = conds[0]
+                    guard = (c[5:-1], False) if c.startswith("not (") and c.endswith(")") else (c, True)
+                elif conds:
+                    guard = tuple(conds)
                 out.append((guard, _kwargs(n.value)))
         return f, out
     for fwd, inv in (("beat_map", "inv_beat_map"), ("quarter_map", "inv_quarter_map")):
@@ -73,9 +78,9 @@ def run(ctx):
     rets = [n for n in own_nodes(ti.node) if isinstance(n, ast.Return) and isinstance(n.value, ast.Call) and norm(n.value.func) == "interp1d"]
     pairs = {}
     for r in rets:
-        p = getattr(r, "_parent", None)
-        if isinstance(p, ast.If) and norm(p.test) == "inv":
-            pairs["inv" if any(r is s for s in p.body) else "fwd"] = [norm(a) for a in r.value.args]
+        conds = X._path_conditions(r, ti.node)
+        if "inv" in conds or "not (inv)" in conds:
+            pairs["inv" if "inv" in conds else "fwd"] = [norm(a) for a in r.value.args]
     ok = "inv" in pairs and "fwd" in pairs and pairs["inv"] == list(reversed(pairs["fwd"])) and len(pairs["fwd"]) == 2 and pairs["fwd"][0] != pairs["fwd"][1]
     ctx.check(ok, "SIB-inv", f"interp1d{tuple(pairs.get('fwd', ()))} / interp1d{tuple(pairs.get('inv', ()))}", func=ti, construct="inverse-swap",
               msg=f"the inverse interpolator must be built from the same two arrays swapped (found {pairs})")
